@@ -134,7 +134,12 @@ def analyse(D: decoders.Decoders, e, run: Run, facts_out=None) -> int:
                 if key in seen:
                     continue
                 seen.add(key)
-                opaque_fn = next((x.a[0].a[0] for x in sym.walk(t) if x.op == "call" and x.a[0].op == "func"), None)
+                opaque_fn = None
+                for x in sym.walk(t):
+                    if x.op == "call" and x.a[0].op == "func":
+                        ks = {a[1] for a in classify(x) if a[0] == "START"}
+                        if ks - {p}:
+                            opaque_fn = x.a[0].a[0]        # it is handed START words of other positions
                 if opaque_fn is not None:
                     # a helper of the package that could not be interpreted in place (loops with early returns ...): which
                     # of its arguments the shown value comes from is not known
@@ -198,9 +203,26 @@ def window_obligations(repo: Repo, run: Run, wanted, why: str) -> None:
                    (o.get("what", "") + " - " + why) if not o["ok"] else "", nontrivial=False)
 
 
+def lookup_obligations(repo: Repo, run: Run, why: str) -> None:
+    """Path arguments are taken from `parse_vnode(s)(events)`: that those are assembled from the window's VFS_LOOKUP records and
+    from nothing else (C08/R1) is what makes a path argument "a function of the nested lookups only".  C08's obligations about
+    the assembler are necessary conditions here; where C08 cannot decide the assembler this check cannot rely on it either."""
+    from . import c08
+    probe = Run("C08", run.tier, run.repo_root)
+    c08.check(repo, probe)          # an AnalysisError propagates: the assembler is not decided
+    n = 0
+    for o in probe.obligations:
+        if o["rule"] == "R1":
+            n += 1
+            run.ob("R0", o["module"], o["scope"], f"lookup assembly (C08/R1): {o['construct']}", o["ok"],
+                   (o.get("what", "") + " - " + why) if not o["ok"] else "", nontrivial=False)
+    run.floor("R0", "lookup-assembly obligations taken over from C08", n, 3)
+
+
 def check(repo: Repo, run: Run) -> None:
     window_obligations(repo, run, ("K3", "K9"),
                        "the decoder's events[0] is then not the START record of the call being rendered")
+    lookup_obligations(repo, run, "a path argument is then not (only) what the nested lookup records of the call spell")
     D = decoders.Decoders(repo)
     n_bsc = n_msc = 0
     npos = 0
